@@ -26,6 +26,7 @@ def main():
     ap.add_argument("--also", default="")
     ap.add_argument("--skip-suite", action="store_true")
     ap.add_argument("--only", default="")
+    ap.add_argument("--tag", default="", help="prefix for the stored id (second round: b)")
     args = ap.parse_args()
     prop = args.prop.upper()
     wt = tempfile.mkdtemp(prefix="verif-seedcheck-")
@@ -39,14 +40,16 @@ def main():
         else:
             mdirs = sorted(Path(args.src).glob("m*"))
         for mdir in mdirs:
-            k = mdir.name.split("-")[-1] if args.src == "stored" else mdir.name[1:]
-            if args.only and args.only not in (mdir.name, f"m{k}", k):
+            k = mdir.name.split("-")[-1] if args.src == "stored" else args.tag + mdir.name[1:]
+            if args.only and args.only not in (mdir.name, f"m{k}", k, mdir.name.split("-")[-1]):
                 continue
             patch, demo = mdir / "patch.diff", mdir / "demo.py"
             if not (patch.exists() and demo.exists()):
                 print(f"{prop}-{k}: incomplete (patch/demo missing)")
                 continue
-            meta = {"property": prop, "source": "independent sub-agent (property text + scratch worktree only)"}
+            meta = {"property": prop, "source": "independent sub-agent (property text + scratch worktree only)",
+                    "round": 2 if k.startswith("b") else 1}
+            first_file = VERIF / "seeded" / f"{prop}-{k}" / "first_contact.json"
             rc, out = sh(f"git -C {wt} apply {patch}")
             if rc != 0:
                 print(f"{prop}-{k}: patch does not apply: {out[-300:]}")
@@ -91,6 +94,8 @@ def main():
             if confirmed:
                 dest = VERIF / "seeded" / f"{prop}-{k}"
                 dest.mkdir(parents=True, exist_ok=True)
+                if not first_file.exists():
+                    first_file.write_text(json.dumps({"detected_by": meta["detected_by"], "checks": fired}, indent=1))
                 if patch.resolve() != (dest / "patch.diff").resolve():
                     shutil.copy(patch, dest / "patch.diff")
                     shutil.copy(demo, dest / "demo.py")
